@@ -293,6 +293,9 @@ func runC01(p *Prog, r *Report) {
 	// ---- R5 level comparison guards every selected server ----
 	checkRRSelectionGuards(p, r, ri, "C01.R5")
 
+	// ---- R7 the sweep is the classical gcd / maximum-level algorithm ----
+	checkRRSweepShape(p, r, ri)
+
 	// ---- R6 derived state read by the selection is refreshed after every pool change, on all exits ----
 	// Fields of the balancer that the selection routine reads (transitively) but never writes, and that
 	// are written after construction, are caches of pool-derived data (e.g. a cached gcd / maximum):
@@ -470,6 +473,13 @@ func checkRRSelectionGuards(p *Prog, r *Report, ri *rrInfo, rule string) {
 func mutantsC01() []Mutant {
 	f := "roundrobin/rr.go"
 	return []Mutant{
+		{Name: "level-compare-strict", File: f, Old: "\t\tif srv.weight >= r.currentWeight {", New: "\t\tif srv.weight > r.currentWeight {", Expect: "C01.R7"},
+		{Name: "level-lowered-by-one", File: f, Old: "\t\t\tr.currentWeight -= gcd\n", New: "\t\t\tr.currentWeight--\n\t\t\t_ = gcd\n", Expect: "C01.R7"},
+		{Name: "rearm-only-below-zero", File: f, Old: "\t\t\tif r.currentWeight <= 0 {", New: "\t\t\tif r.currentWeight < 0 {", Expect: "C01.R7"},
+		{Name: "euclid-swapped", File: f, Old: "\t\ta, b = b, a%b\n", New: "\t\ta, b = b, b%a\n", Expect: "C01.R7"},
+		{Name: "max-becomes-min", File: f, Old: "\t\tif s.weight > maxWeight {", New: "\t\tif s.weight < maxWeight {", Expect: "C01.R7"},
+		{Name: "index-skips", File: f, Old: "\t\tr.index = (r.index + 1) % len(r.servers)", New: "\t\tr.index = (r.index + 2) % len(r.servers)", Expect: "C01.R7"},
+		{Name: "gcd-fold-stops-early", File: f, Old: "\t\t\tdivisor = gcd(divisor, s.weight)\n", New: "\t\t\tdivisor = gcd(divisor, s.weight)\n\t\t\tif divisor == 1 {\n\t\t\t\tbreak\n\t\t\t}\n", Expect: "C01.R7"},
 		{Name: "remove-without-reset", File: f, Old: "\tr.servers = append(r.servers[:index], r.servers[index+1:]...)\n\tr.resetState()\n", New: "\tr.servers = append(r.servers[:index], r.servers[index+1:]...)\n", Expect: "C01.R2"},
 		{Name: "nextserver-unlocked", File: f, Old: "func (r *RoundRobin) nextServer() (*server, error) {\n\tr.mutex.Lock()\n\tdefer r.mutex.Unlock()\n", New: "func (r *RoundRobin) nextServer() (*server, error) {\n", Expect: "C01.R1"},
 		{Name: "serverweight-advances-index", File: f, Old: "\tif s, _ := r.findServerByURL(u); s != nil {\n\t\treturn s.weight, true\n\t}", New: "\tif s, _ := r.findServerByURL(u); s != nil {\n\t\tr.index++\n\t\treturn s.weight, true\n\t}", Expect: "C01.R3"},
